@@ -693,7 +693,30 @@ def readers_return_values_as_parsed(ctx):
                   "the reader returns the nr_dying_descendants entry of cgroup.stat", "getNrDyingDescendantsAt returns %s - not the nr_dying_descendants entry as parsed" % t[:400])
 
 
+def archive_holds_the_slot_type(ctx):
+    """'Per-tick deltas follow their recurrence': value(t) - value(t-1) uses the previous tick's value as it was - the archived copy of a
+    per-tick slot (CgroupArchivedData::x, filled from CgroupData::x in refresh) has the slot's own type.  An archive field declared
+    narrower or integral (optional<int64_t> for the fractional io-cost sum) converts silently in the aggregate initialisation and
+    every delta is off by the truncated fraction."""
+    P = ctx.prog
+    live = {x["name"]: x for x in P.classes.get("Oomd::CgroupContext::CgroupData", {}).get("fields", [])}
+    arch = P.classes.get("Oomd::CgroupContext::CgroupArchivedData", {}).get("fields", [])
+    ctx.counters["archived_fields"] = len(arch)
+    ctx.floor("archived_fields", 3, "fields of CgroupArchivedData")
+    unq = lambda t_: re.sub(r"\b(?:\w+::)+", "", t_ or "").replace(" ", "")
+    for x in arch:
+        l = live.get(x["name"])
+        if l is None:
+            ctx.broken("archive-holds-the-slot-type:" + x["name"], "anchor", "oomd/CgroupContext.h:%d" % x.get("line", 0), "no per-tick slot named %s to compare the archived field with" % x["name"])
+            continue
+        ctx.check(unq(x["type"]) == unq(l["type"]), "archive-holds-the-slot-type:" + x["name"], "E-TYPE (slot / archive agreement)", "oomd/CgroupContext.h:%d" % x.get("line", 0),
+                  "the archived field has the slot's type (%s)" % l["type"],
+                  "CgroupArchivedData::%s is declared %s but the per-tick slot it is copied from is %s: the previous tick's value is converted silently when "
+                  "it is archived, and the delta value(t) - value(t-1) built from it is off by what the conversion dropped" % (x["name"], x["type"], l["type"]))
+
+
 def run(ctx):
+    archive_holds_the_slot_type(ctx)
     readers_return_values_as_parsed(ctx)
     cached_slot_types_agree(ctx)
     memory_protection_scheme(ctx)
